@@ -19,7 +19,7 @@ use super::c01::{yof, MAX_YEAR, MIN_YEAR};
 use super::c13::err_kind;
 use crate::ctx::*;
 use chrono::format::ParseError;
-use chrono::{DateTime, Datelike, FixedOffset, Month, NaiveDate, NaiveDateTime, NaiveTime, TimeZone, Timelike, Utc, Weekday};
+use chrono::{DateTime, Datelike, FixedOffset, Local, Month, NaiveDate, NaiveDateTime, NaiveTime, TimeZone, Timelike, Utc, Weekday};
 use std::fmt::Write as _;
 
 const NS: u32 = 1_000_000_000;
@@ -365,10 +365,69 @@ const OFF_SPECIALS: &[&str] = &[
     "Z", "z", "UTC", "+05\u{a0}30", "+0a:30", "+05:a0", "+05:60", "+05:69", "+05:5", "+２３:00",
 ];
 
+/// civil date of a day count since 1970-01-01 on the proleptic Gregorian calendar, any year
+/// (era arithmetic, independent of chrono): days -> (year, month, day)
+fn civil(days: i64) -> (i64, u32, u32) {
+    let z = days + 719_468;
+    let era = z.div_euclid(146_097);
+    let doe = z.rem_euclid(146_097);
+    let yoe = (doe - doe / 1460 + doe / 36_524 - doe / 146_096) / 365;
+    let doy = doe - (365 * yoe + yoe / 4 - yoe / 100);
+    let mp = (5 * doy + 2) / 153;
+    let d = doy - (153 * mp + 2) / 5 + 1;
+    let m = if mp < 10 { mp + 3 } else { mp - 9 };
+    (yoe + era * 400 + if m <= 2 { 1 } else { 0 }, m as u32, d as u32)
+}
+/// the wall clock of a zone-aware value from its UTC timestamp and offset alone: (year, month, day,
+/// second of day, fraction field) — the year may be MIN_YEAR - 1 or MAX_YEAR + 1
+fn wall_clock(z: &DateTime<FixedOffset>) -> (i64, u32, u32, u32, u32) {
+    let wall = z.timestamp() + z.offset().local_minus_utc() as i64;
+    let (y, m, d) = civil(wall.div_euclid(86400));
+    (y, m, d, wall.rem_euclid(86400) as u32, z.naive_utc().time().nanosecond())
+}
+/// the specified text of both forms, written from `wall_clock` with the independent writers
+fn ref_zoned(z: &DateTime<FixedOffset>) -> (String, String) {
+    let (y, m, d, sod, frac) = wall_clock(z);
+    let (rd, rt, ro) = (ref_date(y as i32, m, d), ref_time(sod, frac), ref_offset(z.offset().local_minus_utc()));
+    (format!("{}T{}{}", rd, rt, ro), format!("{} {} {}", rd, rt, ro))
+}
+
+/// the wall clock as the crate computes it, if it is a `NaiveDate` (op `tx.dtf.local`: the side
+/// condition `Zoned.naive_local z = .ok l` / `InRangeSecs (wallSecs z)` of the theorems)
+fn local_reading(z: &DateTime<FixedOffset>) -> String {
+    match guard(|| z.naive_utc().checked_add_offset(*z.offset())) {
+        Ok(Some(l)) => format!("some {}", sdt(&l)),
+        Ok(None) => "none".into(),
+        Err(()) => "panic".into(),
+    }
+}
+
 /// finding F25 (known_findings.json): a zone-aware value whose wall-clock date lies outside
 /// `NaiveDate::MIN..=MAX` prints that date (year +262143 / -262144) and `FromStr` rejects it.  Called
 /// only for such values (whole-minute offset, leap second only on second 59).
 fn report_f25(c: &mut Ctx, z: &DateTime<FixedOffset>, dbg: &Text, dsp: &Text, reported: &mut u32) {
+    // theorem `fixed_out_of_range_never_parses_back`: the wall-clock year is a headroom year, the text is
+    // the specified text of that wall clock, and a reader that does not return the value answers OutOfRange
+    let (y, _, _, _, _) = wall_clock(z);
+    if y != MIN_YEAR as i64 - 1 && y != MAX_YEAR as i64 + 1 {
+        c.fail("DateTime<FixedOffset>: checked_add_offset fails although the wall-clock year is in range", &format!("{} wall-clock year {}", sz(z), y));
+    }
+    let (rdbg, rdsp) = ref_zoned(z);
+    for (form, x, want) in [("Debug", dbg, &rdbg), ("Display", dsp, &rdsp)] {
+        if txt(x) != want {
+            c.fail(
+                &format!("DateTime<FixedOffset> {} text of an out-of-range local date is not the extended wall clock", form),
+                &format!("{:?}, expected {:?}, for {}", txt(x), want, sz(z)),
+            );
+        }
+        let got = rd_dtf(txt(x));
+        if got != "err OutOfRange" && !got.starts_with("ok ") {
+            c.fail(
+                &format!("DateTime<FixedOffset> {} of an out-of-range local date: FromStr answers neither a value nor Err(OutOfRange)", form),
+                &format!("{} text {:?} -> {}", sz(z), txt(x), got),
+            );
+        }
+    }
     for (form, x) in [("Debug", dbg), ("Display", dsp)] {
         if guard(|| txt(x).parse::<DateTime<FixedOffset>>().ok() == Some(*z)) != Ok(true) {
             c.count("dtf:out-of-range-local-date-rejected(known finding F25)");
@@ -446,12 +505,32 @@ pub fn run(c: &mut Ctx) {
             if strict && guard(|| txt(x).parse::<NaiveTime>().ok() == Some(t)) != Ok(true) {
                 c.fail(&format!("NaiveTime {} does not parse back", form), &format!("{} text {:?}", st(&t), txt(x)));
             }
+            if !strict && t.num_seconds_from_midnight() % 60 != 59 {
+                // theorem `NaiveTime_leap_off_59_reads_as_next_second` (outside the property's side condition)
+                let want = mk_time(t.num_seconds_from_midnight() + 1, t.nanosecond() - NS);
+                c.count("time:leap-off-59-reads-as-next-second");
+                if guard(|| txt(x).parse::<NaiveTime>().ok()) != Ok(Some(want)) {
+                    c.fail("NaiveTime leap representation off second 59 does not read as the following second", &format!("{} text {:?} -> {}", st(&t), txt(x), rd_time(txt(x))));
+                }
+            }
             if txt(x) != ref_time(t.num_seconds_from_midnight(), t.nanosecond()) {
                 c.fail("NaiveTime text is not HH:MM:SS[.fff[fff[fff]]] with minimal fraction and second+1 for a leap second", &format!("{:?} for {}", txt(x), st(&t)));
             }
         }
         if i < 2 {
             c.sample(&format!("NaiveTime {} -> {:?} -> {}", st(&t), txt(&dbg), rd_time(txt(&dbg))));
+        }
+    }
+
+    // theorem `NaiveTime_reads_without_seconds`: `HH:MM` reads as `HH:MM:00`, all 1 440 minutes
+    for h in 0..24u32 {
+        for m in 0..60u32 {
+            let t = format!("{:02}:{:02}", h, m);
+            c.op(&format!("tx.time.parse {}", hex(t.as_bytes())), &rd_time(&t));
+            c.count("time:without-seconds");
+            if guard(|| t.parse::<NaiveTime>().ok()) != Ok(NaiveTime::from_hms_opt(h, m, 0)) {
+                c.fail("NaiveTime HH:MM does not read as HH:MM:00", &t);
+            }
         }
     }
 
@@ -524,6 +603,24 @@ pub fn run(c: &mut Ctx) {
         }
         let (dbg, dsp) = (dbg_text(&z), dsp_text(&z));
         c.op(&format!("tx.dtf {}", sz(&z)), &format!("{} | {}", both(&dbg, &rd_dtf), both(&dsp, &rd_dtf)));
+        c.op(&format!("tx.dtf.local {}", sz(&z)), &local_reading(&z));
+        // the crate's own range test of the wall clock against the independent one
+        // (`InRangeSecs (wallSecs z)` of the theorems: the wall-clock year lies in MIN_YEAR..=MAX_YEAR)
+        {
+            let (y, _, _, _, _) = wall_clock(&z);
+            if local_ok != (MIN_YEAR as i64 <= y && y <= MAX_YEAR as i64) {
+                c.fail("DateTime<FixedOffset>: checked_add_offset disagrees with the wall-clock year being in range", &format!("{} wall-clock year {} local_ok {}", sz(&z), y, local_ok));
+            }
+            // both forms are the specified text of the independently computed wall clock (all offsets,
+            // with or without a seconds part, in and out of range)
+            let (rdbg, rdsp) = ref_zoned(&z);
+            if txt(&dbg) != rdbg {
+                c.fail("DateTime<FixedOffset> Debug is not the text of the independently computed wall clock", &format!("{:?}, expected {:?}, for {}", txt(&dbg), rdbg, sz(&z)));
+            }
+            if txt(&dsp) != rdsp {
+                c.fail("DateTime<FixedOffset> Display is not the text of the independently computed wall clock", &format!("{:?}, expected {:?}, for {}", txt(&dsp), rdsp, sz(&z)));
+            }
+        }
         if !local_ok && strict && whole_min {
             report_f25(c, &z, &dbg, &dsp, &mut f25_reported);
         }
@@ -534,6 +631,15 @@ pub fn run(c: &mut Ctx) {
                 if !same {
                     c.fail(&format!("DateTime<FixedOffset> {} does not parse back", form), &format!("{} text {:?}", sz(&z), txt(x)));
                 }
+            }
+        }
+        if strict && whole_min && local_ok && i % 4 == 0 {
+            // theorem `DateTime_FixedOffset_reads_lowercase_t`: the Debug text with `t` for `T` reads back
+            let lower = txt(&dbg).replacen('T', "t", 1);
+            c.op(&format!("tx.dtf.parse {}", hex(lower.as_bytes())), &rd_dtf(&lower));
+            c.count("dtf:lower-case-t");
+            if guard(|| lower.parse::<DateTime<FixedOffset>>().ok().map(|b| (b, b.offset().local_minus_utc()))) != Ok(Some((z, off))) {
+                c.fail("DateTime<FixedOffset> Debug text with a lower-case t does not read back", &format!("{} text {:?}", sz(&z), lower));
             }
         }
         if local_ok {
@@ -557,7 +663,18 @@ pub fn run(c: &mut Ctx) {
             let z: DateTime<FixedOffset> = tz.from_utc_datetime(base);
             let (dbg, dsp) = (dbg_text(&z), dsp_text(&z));
             c.op(&format!("tx.dtf {}", sz(&z)), &format!("{} | {}", both(&dbg, &rd_dtf), both(&dsp, &rd_dtf)));
+            c.op(&format!("tx.dtf.local {}", sz(&z)), &local_reading(&z));
             let local_ok = guard(|| z.naive_utc().checked_add_offset(tz).is_some()) == Ok(true);
+            {
+                let (y, _, _, _, _) = wall_clock(&z);
+                if local_ok != (MIN_YEAR as i64 <= y && y <= MAX_YEAR as i64) {
+                    c.fail("DateTime<FixedOffset>: checked_add_offset disagrees with the wall-clock year being in range", &format!("range end {} {} wall-clock year {} local_ok {}", k, sz(&z), y, local_ok));
+                }
+                let (rdbg, rdsp) = ref_zoned(&z);
+                if txt(&dbg) != rdbg || txt(&dsp) != rdsp {
+                    c.fail("DateTime<FixedOffset> text at a range end is not the text of the independently computed wall clock", &format!("{:?} / {:?}, expected {:?} / {:?}, for {}", txt(&dbg), txt(&dsp), rdbg, rdsp, sz(&z)));
+                }
+            }
             c.count(if local_ok { "dtf:range-end,local-in-range" } else { "dtf:range-end,local-outside-range" });
             if local_ok {
                 for (form, x) in [("Debug", &dbg), ("Display", &dsp)] {
@@ -597,9 +714,110 @@ pub fn run(c: &mut Ctx) {
                 }
             }
         }
+        if strict && i % 4 == 0 {
+            // theorem `DateTime_Utc_reads_lowercase`: `t` / `z` / `utc` in lower case read back as the value
+            let forms = [
+                txt(&dbg).replacen('T', "t", 1).replacen('Z', "z", 1),
+                txt(&dbg).replacen('Z', "z", 1),
+                txt(&dbg).replacen('T', "t", 1),
+                txt(&dsp).replacen("UTC", "utc", 1),
+            ];
+            for (k, t) in forms.iter().enumerate() {
+                c.op(&format!("tx.dtu.parse {}", hex(t.as_bytes())), &rd_dtu(t));
+                if k % 3 == 0 {
+                    c.op(&format!("tx.dtf.parse {}", hex(t.as_bytes())), &rd_dtf(t));
+                }
+                c.count("dtu:lower-case-spelling");
+                if guard(|| t.parse::<DateTime<Utc>>().ok() == Some(z)) != Ok(true) {
+                    c.fail("DateTime<Utc> text with lower-case t / z / utc does not read back", &format!("{} text {:?}", sdt(&v), t));
+                }
+                let fz = guard(|| t.parse::<DateTime<FixedOffset>>().ok().map(|b| (b.naive_utc(), b.offset().local_minus_utc())));
+                if k % 3 == 0 && fz != Ok(Some((v, 0))) {
+                    c.fail("DateTime<FixedOffset> FromStr of a UTC text with lower-case t / z / utc is not the value at offset 0", &format!("{} text {:?}", sdt(&v), t));
+                }
+            }
+        }
         if i < 1 {
             c.sample(&format!("DateTime<Utc> {} -> {:?} -> {}", sdt(&v), txt(&dsp), rd_dtu(txt(&dsp))));
         }
+    }
+
+    // ---------------------------------------------------------------- DateTime<Local>
+    // theorem `roundtrip_DateTime_Local`: a `Local` value prints like the `DateTime<FixedOffset>` with the
+    // offset the zone gave it and reads back as the same instant with that offset.  `Local` follows the
+    // `TZ` variable; each zone is run on a fresh thread (the per-thread cache), values are drawn here.
+    for tzname in ["Asia/Kolkata", "America/St_Johns", "Australia/Lord_Howe", "Pacific/Kiritimati", "Europe/Amsterdam", "UTC"] {
+        let mut vals: Vec<NaiveDateTime> = vec![];
+        for _ in 0..c.n(300, 3000) {
+            let (d, _) = if c.rng.chance(1, 2) {
+                (NaiveDate::from_yo_opt(c.rng.range(1850, 2100) as i32, c.rng.range(1, 365) as u32).unwrap(), "")
+            } else {
+                gen_date(c)
+            };
+            let (t, _, _, strict) = gen_time(c);
+            if strict {
+                vals.push(d.and_time(t));
+            }
+        }
+        vals.extend([NaiveDateTime::MIN, NaiveDateTime::MAX]);
+        let old = std::env::var("TZ").ok();
+        std::env::set_var("TZ", tzname);
+        // (value as `<utc> <off>`, Debug, Display, same for the FixedOffset view, FromStr of both texts, round trips)
+        type Row = (String, i32, Text, Text, Text, Text, String, String, bool, bool);
+        let rows: Vec<Row> = std::thread::spawn(move || {
+            vals.iter()
+                .map(|v| {
+                    let l: DateTime<Local> = Local.from_utc_datetime(v);
+                    let f = l.fixed_offset();
+                    let rd = |s: &str| pr(guard(|| s.parse::<DateTime<Local>>()), |b| sz(&b.fixed_offset()));
+                    let (dbg, dsp) = (dbg_text(&l), dsp_text(&l));
+                    let back = |x: &Text| guard(|| txt(x).parse::<DateTime<Local>>().ok().map(|b| b == l && b.fixed_offset().offset().local_minus_utc() == f.offset().local_minus_utc())) == Ok(Some(true));
+                    (sz(&f), f.offset().local_minus_utc(), dbg.clone(), dsp.clone(), dbg_text(&f), dsp_text(&f), both(&dbg, &rd), both(&dsp, &rd), back(&dbg), back(&dsp))
+                })
+                .collect()
+        })
+        .join()
+        .unwrap_or_default();
+        match old {
+            Some(v) => std::env::set_var("TZ", v),
+            None => std::env::remove_var("TZ"),
+        }
+        if rows.is_empty() {
+            c.fail("DateTime<Local> worker thread panicked", tzname);
+        }
+        let mut f25_local = 0;
+        for (k, (val, off, dbg, dsp, fdbg, fdsp, bdbg, bdsp, back_dbg, back_dsp)) in rows.iter().enumerate() {
+            c.op(&format!("tx.dtl {}", val), &format!("{} | {}", bdbg, bdsp));
+            c.count(if off % 60 != 0 { "dtl:offset-with-seconds(outside property)" } else { "dtl:whole-minute-offset" });
+            if dbg != fdbg || dsp != fdsp {
+                c.fail("DateTime<Local> text differs from the text of its FixedOffset view", &format!("TZ={} {} {:?} / {:?} vs {:?} / {:?}", tzname, val, txt(dbg), txt(dsp), txt(fdbg), txt(fdsp)));
+            }
+            if off % 60 == 0 {
+                let z: DateTime<FixedOffset> = match txt(fdbg).parse() {
+                    Ok(z) => z,
+                    Err(_) => {
+                        // only the F25 band (wall clock outside NaiveDate's range) may fail to read back
+                        f25_local += 1;
+                        c.count("dtl:out-of-range-local-date(known finding F25)");
+                        if !(bdbg.ends_with("err OutOfRange") && bdsp.ends_with("err OutOfRange")) {
+                            c.fail("DateTime<Local> text is rejected with another error than OutOfRange", &format!("TZ={} {} -> {} | {}", tzname, val, bdbg, bdsp));
+                        }
+                        continue;
+                    }
+                };
+                let _ = z;
+                if !back_dbg {
+                    c.fail("DateTime<Local> Debug does not parse back", &format!("TZ={} {} text {:?}", tzname, val, txt(dbg)));
+                }
+                if !back_dsp {
+                    c.fail("DateTime<Local> Display does not parse back", &format!("TZ={} {} text {:?}", tzname, val, txt(dsp)));
+                }
+            }
+            if k == 0 {
+                c.sample(&format!("DateTime<Local> TZ={} {} -> {:?} -> {}", tzname, val, txt(dsp), bdsp));
+            }
+        }
+        let _ = f25_local;
     }
 
     // ---------------------------------------------------------------- FixedOffset
@@ -624,6 +842,13 @@ pub fn run(c: &mut Ctx) {
         for (form, x) in [("Debug", &dbg), ("Display", &dsp)] {
             if txt(x) != ref_offset(o) {
                 c.fail("FixedOffset text is not +hh:mm[:ss]", &format!("{:?} for {}", txt(x), o));
+            }
+            if o % 60 != 0 {
+                // theorem `FixedOffset_with_seconds_reads_truncated` (outside the property's side condition)
+                let got = guard(|| txt(x).parse::<FixedOffset>().ok().map(|b| b.local_minus_utc()));
+                if got != Ok(Some(o - o % 60)) {
+                    c.fail("FixedOffset with a seconds part does not read as the offset truncated to minutes", &format!("{} text {:?} -> {:?}", o, txt(x), got));
+                }
             }
             if o % 60 == 0 && guard(|| txt(x).parse::<FixedOffset>().ok() == Some(f)) != Ok(true) {
                 c.fail(&format!("FixedOffset {} does not parse back", form), &format!("{} text {:?}", o, txt(x)));
